@@ -1,4 +1,8 @@
 import Lemmas.EvenOdd
+import Lemmas.EvenOddOutside
+import Lemmas.EvenOddPerm
+import Lemmas.EvenOddMargin
+import Lemmas.EvenOddDyadic
 /-! # C05 — polygon Boolean operations compute the pointwise Boolean combination of regions
 
 **Level: translation validation with a proved validator.**  The clipper of `/repo/xmath/geom/poly` (a ~1900-line
@@ -11,14 +15,22 @@ with the usual crossing test (`EOQ.crosses`, `EOQ.inside`):
 
 * `validateLattice_sound` — a `true` verdict on a lattice call implies the Boolean law at EVERY point of EVERY open
   unit cell of `[0,N]²` (a finite check of `N²` cell centres decides uncountably many points);
-* `validateLattice_outside` — and no point outside the square is inside any of the three polygons;
+* `validateLattice_outside`, `validateLattice_sound_outside` — and no point strictly outside the square is inside any
+  of the three polygons (the parity argument: a closed contour crosses a horizontal line evenly often), so the law
+  holds there too;
+* `validateLattice_empty` — "empty when the combined region is empty" is part of the verdict;
 * `validatePoints_sound`, `clear_not_on_edge` — a `true` verdict on a sampled call is the law at every listed sample
   point that keeps the margin, and such points do not lie on any edge (sampling: nothing follows for other points);
 * `inside_int_iff_rat`, `inside_scale` — the executable division-free integer test is the ℚ-level rule, and scaling all
   numbers of a call to a common denominator does not change it;
-* `xor_concat`, `inside_rotate`, `inside_reverse` — properties of the specification itself.
+* `scaled_exact`, `toInt_exact` — the integers the driver hands to the validators are the exact values of the decoded
+  dyadics (times the common power of two); `EO.decodeBits` is the IEEE-754 value formula itself (examples below);
+* `xor_concat`, `xor_concat_rat`, `inside_rotate`, `inside_reverse` (and `_rat` versions) — properties of the
+  specification itself: `Xor` is concatenation of contour lists; start vertex and direction of a contour are
+  irrelevant.
 
-Not proved: anything about the clipper over all inputs; points lying exactly on lattice lines (not on an edge) are
+Not proved: anything about the clipper over all inputs; the driver's text parsing and its choice of the common exponent
+(`minExp`, a fold of `min` over all exponents of the call) are trusted glue; points lying exactly on lattice lines (not on an edge) are
 not covered by `validateLattice_sound`; for general-position inputs only sample points are judged. -/
 namespace C05
 open EOQ
@@ -96,6 +108,77 @@ theorem validatePoints_sound (m : Int) (A B R : EO.Polygon) (op : EO.Op) (pts : 
   simp only [Bool.not_true, Bool.false_or] at h1
   rw [lawAt_iff, inside_toQ, inside_toQ, inside_toQ] at h1
   exact h1
+
+/-- no point strictly outside the closed square `[0,N]²` is inside A, B or R when the lattice validator accepts
+    (all vertices lie in the square) -/
+theorem validateLattice_outside (N : Nat) (A B R : EO.Polygon) (op : EO.Op)
+    (h : EO.validateLattice N A B R op = true) (p : QPt)
+    (hout : p.x < 0 ∨ (N : ℚ) < p.x ∨ p.y < 0 ∨ (N : ℚ) < p.y) :
+    ¬ inside (polyQ A) p ∧ ¬ inside (polyQ B) p ∧ ¬ inside (polyQ R) p := by
+  unfold EO.validateLattice at h
+  simp only [Bool.and_eq_true] at h
+  obtain ⟨⟨⟨⟨hA, hB⟩, hR⟩, _⟩, _⟩ := h
+  exact ⟨outside_not_inside N _ (latticeOK_inSquareRect N A hA) p hout,
+    outside_not_inside N _ (latticeOK_inSquareRect N B hB) p hout,
+    outside_not_inside N _ (latticeOK_inSquareRect N R hR) p hout⟩
+
+/-- hence the Boolean law also holds at every point strictly outside the square -/
+theorem validateLattice_sound_outside (N : Nat) (A B R : EO.Polygon) (op : EO.Op)
+    (h : EO.validateLattice N A B R op = true) (p : QPt)
+    (hout : p.x < 0 ∨ (N : ℚ) < p.x ∨ p.y < 0 ∨ (N : ℚ) < p.y) :
+    inside (polyQ R) p ↔ holds op (inside (polyQ A) p) (inside (polyQ B) p) := by
+  obtain ⟨hA, hB, hR⟩ := validateLattice_outside N A B R op h p hout
+  cases op <;> simp [holds, hA, hB, hR]
+
+/-- sample points that pass the margin test (margin > 0) lie on no edge of A, B or R: they belong to the domain the
+    property quantifies over ("every point not lying on an edge of A, B or the result") -/
+theorem clear_not_on_edge (m : Int) (hm : 0 < m) (A B R : EO.Polygon) (p : EO.Pt)
+    (hc : EO.clearAll m A B R p = true) :
+    ∀ e ∈ EO.allEdges A ++ EO.allEdges B ++ EO.allEdges R, ¬ OnSeg (toQ e.1) (toQ e.2) (toQ p) := by
+  unfold EO.clearAll at hc
+  simp only [Bool.and_eq_true] at hc
+  obtain ⟨⟨hA, hB⟩, hR⟩ := hc
+  intro e he
+  simp only [List.mem_append] at he
+  rcases he with (he | he) | he
+  · exact EOQ.clear_not_on_edge m hm A p hA e he
+  · exact EOQ.clear_not_on_edge m hm B p hB e he
+  · exact EOQ.clear_not_on_edge m hm R p hR e he
+
+/-- the start vertex of a contour does not matter (executable definition) -/
+theorem inside_rotate (P₁ P₂ : EO.Polygon) (l₁ l₂ : EO.Contour) (p : EO.Pt) :
+    EO.inside (P₁ ++ (l₂ ++ l₁) :: P₂) p = EO.inside (P₁ ++ (l₁ ++ l₂) :: P₂) p :=
+  inside_rotate_int P₁ P₂ l₁ l₂ p
+
+/-- the direction of a contour does not matter (executable definition) -/
+theorem inside_reverse (P₁ P₂ : EO.Polygon) (c : EO.Contour) (p : EO.Pt) :
+    EO.inside (P₁ ++ c.reverse :: P₂) p = EO.inside (P₁ ++ c :: P₂) p :=
+  inside_reverse_int P₁ P₂ c p
+
+/-- the same over ℚ -/
+theorem inside_rotate_rat (P₁ P₂ : QPolygon) (l₁ l₂ : QContour) (p : QPt) :
+    inside (P₁ ++ (l₂ ++ l₁) :: P₂) p ↔ inside (P₁ ++ (l₁ ++ l₂) :: P₂) p :=
+  EOQ.inside_rotate P₁ P₂ l₁ l₂ p
+
+theorem inside_reverse_rat (P₁ P₂ : QPolygon) (c : QContour) (p : QPt) :
+    inside (P₁ ++ c.reverse :: P₂) p ↔ inside (P₁ ++ c :: P₂) p :=
+  EOQ.inside_reverse P₁ P₂ c p
+
+/-- exactness of the common-denominator scaling used for sampled calls -/
+theorem scaled_exact (d : EO.Dy) (emin : Int) (h : emin ≤ d.e) :
+    ((d.scaled emin : Int) : ℚ) = dyVal d * (2 : ℚ) ^ (-emin) :=
+  scaled_val d emin h
+
+/-- exactness of the lattice coordinates used for lattice calls -/
+theorem toInt_exact (d : EO.Dy) (n : Int) (h : d.toInt? = some n) : (n : ℚ) = dyVal d :=
+  toInt?_val d n h
+
+/-! IEEE decoding on concrete patterns: 1.5 (float64), 0.1f (float32), -0.0, the smallest float32 denormal, +Inf -/
+example : EO.decodeBits 11 52 0x3FF8000000000000 = some ⟨3 * 2 ^ 51, -52⟩ := by decide
+example : EO.decodeBits 8 23 0x3DCCCCCD = some ⟨13421773, -27⟩ := by decide
+example : EO.decodeBits 11 52 0x8000000000000000 = some ⟨0, 0⟩ := by decide
+example : EO.decodeBits 8 23 0x00000001 = some ⟨1, -149⟩ := by decide
+example : EO.decodeBits 8 23 0x7F800000 = none := by decide
 
 /-! non-vacuity: the unit square united with its right neighbour is the 2×1 rectangle; the validator accepts it, and
     rejects the same result for the intersection. -/
